@@ -1051,3 +1051,56 @@ def rf167(run):
                             run.violation(rule, f, 'address of a memory operand', 'mir2c prints the memory operand (disp %d, %s, %s, scale %d) wrongly: %s' %
                                           (disp, 'base' if base else 'no base', 'index' if index else 'no index', scale, why), line=stmts[0]['l'] if stmts else f.line)
     return n
+
+
+# ---------------------------------------------------------------------------------------------
+# RF175: the translator does not write into the module
+# ---------------------------------------------------------------------------------------------
+
+def rf175(run):
+    rule = 'RF175'
+    run.rule(rule, 'mir2c.c: MIR_module2c reads the module and prints C.  No statement of the translator assigns, increments or otherwise '
+                   'writes a field reached through a pointer to a MIR object (item, instruction, function, prototype, data, module): a mark '
+                   'left in `item->addr` (D114) made a second translation lose the definition, made MIR_load_module after a translation '
+                   'copy data to address 1, and made a loaded module translate to nothing')
+    tu = run.tu('mir2c')
+    n = w = 0
+
+    def root_type(e):
+        """type string of the object a member chain is rooted in, and whether the chain goes through a pointer"""
+        through_ptr = False
+        e = F.strip(e)
+        while e['k'] in ('MemberExpr', 'ArraySubscriptExpr'):
+            base = F.strip(e['c'][0])
+            bt = tu.type(base)
+            if bt is not None and (getattr(bt, 'kind', None) == 'ptr' or '*' in (bt.s or '')):
+                through_ptr = True
+                return (bt.s or ''), through_ptr
+            e = base
+        return (getattr(tu.type(e), 's', '') or ''), through_ptr
+    for g in tu.func_list:
+        if g.body is None or not g.file.endswith('mir2c/mir2c.c'):
+            continue
+        run.functions_analysed.add(('mir2c', g.name))
+        for x in g.walk():
+            lhs = None
+            if x['k'] in ('BinaryOperator', 'CompoundAssignOperator') and x['op'].endswith('=') and x['op'] not in ('==', '!=', '<=', '>='):
+                lhs = x['c'][0]
+            elif x['k'] == 'UnaryOperator' and x['op'] in ('++', '--'):
+                lhs = x['c'][0]
+            if lhs is None:
+                continue
+            n += 1
+            l0 = F.strip(lhs)
+            if l0['k'] not in ('MemberExpr', 'ArraySubscriptExpr'):
+                continue
+            ts, ptr = root_type(l0)
+            if ptr and 'MIR_' in ts:
+                w += 1
+                run.ob(rule, (g.name, x['l']), False, {'site': '%s:%d %s' % (g.relfile(), x['l'], g.name), 'write': F.src(x)[:60], 'through': ts})
+                run.violation(rule, g, 'translator writes into the module', '%s writes `%s` (line %d) through a %s: the module is changed by its own '
+                              'translation — translating it again, or loading it afterwards, sees the change' % (g.name, F.src(lhs)[:40], x['l'], ts),
+                              line=x['l'])
+    run.control(rule, 'assignments of mir2c.c seen', n >= 20)
+    run.ob(rule, ('unit',), w == 0, {'assignments inspected': n, 'through a pointer to a MIR object': w})
+    return 1
